@@ -58,11 +58,22 @@ class Taint:
     local).  Closures passed to calls are analysed in their own bodies (captures <-> upvars)."""
 
     def __init__(self, body, is_source_place=None, tainted_args=(), tainted_upvars=(), call_hook=None,
-                 program=None, depth=0):
+                 program=None, depth=0, source=None, cg=None):
+        """source = (root, fields, index): an access path whose value is the taint source.
+             root   ('local', n) | ('upvar', name)
+             fields ['condition', 'msd_threshold']   first-level-and-deeper field names
+             index  None | k   (the k-th element of the container at that path, read via Index::index)
+           Reads of a strict prefix of the path (a container of the source) are tracked as
+           container references: passed to a local callee they are refined with `param_reads`
+           (needs cg), captured by a closure they become the closure's source."""
         self.b = body
         self.p = program or body.program
         self.eb = ExprBuilder(body)
         self.is_source_place = is_source_place
+        self.source = source
+        self.cg = cg
+        self.cont = {}           # local -> remaining field path (reference to a container of the source)
+        self.container_escapes = []
         self.T = set((a, None) for a in tainted_args)
         for u in tainted_upvars:
             self.T.add((1, u.lstrip("*")))
@@ -73,6 +84,7 @@ class Taint:
         self.sub = {}            # cache of closure sub-analyses
         self.tainted_switches = []
         self._compute_pts()
+        self._track_containers()
         self._run()
 
     # ---- helpers on abstract locations
@@ -170,7 +182,78 @@ class Taint:
         if self.is_source_place is not None and pl["proj"]:
             if self.is_source_place(pl, None):
                 return True
+        if self.source is not None:
+            c = self.classify(pl)
+            if c is not None and c[0] == "hit":
+                return True
         return False
+
+    # ---- access-path source
+    def _place_fields(self, pl):
+        out = []
+        for e in pl["proj"]:
+            if e["k"] == "field":
+                nm = e.get("name")
+                out.append(nm.lstrip("*") if nm else str(e["i"]))
+            elif e["k"] in ("deref", "downcast"):
+                continue
+            else:
+                out.append("[]")
+        return out
+
+    def classify(self, pl):
+        """('hit',) the place is (part of) the source; ('container', remaining) the place strictly
+        contains it; None unrelated"""
+        root, fields, index = self.source
+        pf = self._place_fields(pl)
+        rem = None
+        if root[0] == "local" and pl["local"] == root[1]:
+            rem = list(fields)
+        elif root[0] == "upvar" and self.b.kind == "Closure" and pl["local"] == 1 and pf and pf[0] == root[1]:
+            pf = pf[1:]
+            rem = list(fields)
+        elif pl["local"] in self.cont:
+            rem = list(self.cont[pl["local"]])
+        if rem is None:
+            return None
+        # compare pf with rem
+        n = min(len(pf), len(rem))
+        if pf[:n] != rem[:n]:
+            return None
+        if len(pf) >= len(rem):
+            if index is not None and len(pf) == len(rem):
+                return ("container", [])      # the vector itself; element chosen by Index::index
+            if index is not None and len(pf) > len(rem) and pf[len(rem)] == "[]":
+                return ("hit",)               # direct projection indexing with a variable: conservative
+            return ("hit",)
+        return ("container", rem[len(pf):])
+
+    def _track_containers(self):
+        """locals that hold (a reference to) a container of the source"""
+        if self.source is None:
+            return
+        changed = True
+        rounds = 0
+        while changed and rounds < 20:
+            rounds += 1
+            changed = False
+            for bb, i, st in self.b.iter_stmts():
+                if st["k"] != "assign" or st["place"]["proj"]:
+                    continue
+                rv = st["rv"]
+                src = None
+                if rv["k"] in ("ref", "rawptr", "copyforderef"):
+                    src = rv["place"]
+                elif rv["k"] in ("use", "cast") and rv.get("op", {}).get("k") in ("copy", "move"):
+                    src = rv["op"]["place"]
+                if src is None:
+                    continue
+                c = self.classify(src)
+                if c is not None and c[0] == "container":
+                    d = st["place"]["local"]
+                    if self.cont.get(d) != c[1]:
+                        self.cont[d] = c[1]
+                        changed = True
 
     def operand_tainted(self, o):
         return any(self.place_tainted(pl) for pl in operand_places(o))
@@ -219,11 +302,19 @@ class Taint:
             anyt = others_tainted or any(self.operand_tainted(o) for o in ops)
             return (set(range(len(ops))) if anyt else set()), anyt
         tcaps = tuple(sorted(c["name"].lstrip("*") for c, o in zip(caps, ops) if self.operand_tainted(o)))
-        key = (cl, tcaps, others_tainted)
+        sub_source = None
+        if self.source is not None:
+            for c, o in zip(caps, ops):
+                for pl in operand_places(o):
+                    cc = self.classify(pl) if (pl["proj"] or pl["local"] in self.cont) else (
+                        ("container", self.cont[pl["local"]]) if pl["local"] in self.cont else None)
+                    if cc is not None and cc[0] == "container":
+                        sub_source = (("upvar", c["name"].lstrip("*")), list(cc[1]), self.source[2])
+        key = (cl, tcaps, others_tainted, repr(sub_source))
         if key not in self.sub:
             targs = list(range(2, body.argc + 1)) if others_tainted else []
             self.sub[key] = Taint(body, tainted_args=targs, tainted_upvars=tcaps, program=self.p,
-                                  depth=self.depth + 1)
+                                  depth=self.depth + 1, source=sub_source, cg=self.cg)
         sub = self.sub[key]
         written = set()
         for k, c in enumerate(caps):
@@ -235,6 +326,11 @@ class Taint:
         ret = sub._is_t(0, None)
         if sub.tainted_switches:
             ret = True
+        # a `&mut` parameter of the closure written with tainted data: the caller's value changes
+        if not others_tainted:
+            for a in range(2, body.argc + 1):
+                if any(x[0] == a for x in sub.T):
+                    ret = True
         return written, ret
 
     def _run(self):
@@ -277,6 +373,17 @@ class Taint:
                             if not pl["proj"] and any(self._is_t(*x) for x in self.pts.get(pl["local"], ())):
                                 tt = True
                     at.append(tt)
+                # arguments that are references to a container of the source
+                if self.source is not None:
+                    for k, a in enumerate(t["args"]):
+                        if cl_args[k] is not None or at[k]:
+                            continue
+                        for pl in operand_places(a):
+                            c = self.classify(pl) if (pl["proj"] or pl["local"] in self.cont or
+                                                      (self.source[0][0] == "local" and pl["local"] == self.source[0][1])) else None
+                            if c is not None and c[0] == "container":
+                                if self._container_arg_tainted(t, k, c[1]):
+                                    at[k] = True
                 others = any(at) or bb in ctrl
                 res_t = others
                 mut_t = [others] * len(t["args"])
@@ -307,6 +414,42 @@ class Taint:
                             tgs = self.pts.get(pl["local"]) if not pl["proj"] else self._targets(pl)
                             for tg in (tgs or {(pl["local"], None)}):
                                 changed |= self._taint_loc(tg)
+
+    def _container_arg_tainted(self, t, k, remaining):
+        """argument k of call t is a reference to a container whose field path `remaining` leads to
+        the source.  Index::index(container_of_elements, const j): tainted iff j == source index.
+        Local callee: tainted iff it may read the next field (param_reads).  Otherwise tainted."""
+        c = t["callee"]
+        name = callee_name(c) if c["k"] == "fndef" else ""
+        index = self.source[2]
+        if not remaining and index is not None and ("Index<" in name or "IndexMut<" in name) and len(t["args"]) == 2 and k == 0:
+            j = t["args"][1]
+            if j.get("k") == "const" and "int" in j:
+                return int(j["int"]) == index
+            return True
+        if not remaining:
+            return True
+        if c["k"] != "fndef" or self.cg is None:
+            self.container_escapes.append((t, k, remaining))
+            return True
+        targets = []
+        res = c.get("resolved")
+        if res in self.p.bodies:
+            targets = [res]
+        elif c.get("krate") == self.p.crate:
+            tr = c.get("trait")
+            method = c["def"].rsplit("::", 1)[-1]
+            targets = list(self.cg.trait_impls.get((tr, method), [])) if tr else []
+        if not targets:
+            # external callee given a container: transparent views keep it a container
+            self.container_escapes.append((t, k, remaining))
+            return True
+        reads = set()
+        for tg in targets:
+            reads |= param_reads(self.p, self.cg, tg, k + 1)
+        if TOP in reads or remaining[0] in reads:
+            return True
+        return False
 
     # ---- queries
     def local_tainted(self, l, f=None):
